@@ -19,6 +19,7 @@ import (
 	"testing"
 	"time"
 
+	gpb "github.com/golang/protobuf/proto"
 	client "github.com/liftbridge-io/liftbridge-api/v2/go"
 	"github.com/nats-io/nats.go"
 	pb "google.golang.org/protobuf/proto"
@@ -82,8 +83,186 @@ func c14decode(f []byte) (msg *client.Message, certainlyNot bool) {
 	return m, false
 }
 
+// c14header is an independent reading of the envelope header: the payload and type byte of a frame whose
+// header is valid, or valid=false; undecided for a header length below the fixed part (what that means is
+// not defined).
+func c14header(f []byte) (payload []byte, typ int, valid, undecided bool) {
+	if len(f) < 8 || !bytes.Equal(f[:4], c14magic) || f[4] != 0 {
+		return nil, -1, false, false
+	}
+	hl := int(f[5])
+	if hl > len(f) {
+		return nil, -1, false, false
+	}
+	if hl < 8 {
+		return nil, int(f[7]), false, true
+	}
+	if f[6]&1 == 1 {
+		if hl != 12 || crc32.Checksum(f[12:], c14crc) != binary.BigEndian.Uint32(f[8:12]) {
+			return nil, -1, false, false
+		}
+	}
+	return f[hl:], int(f[7]), true, false
+}
+
+type c14dec struct {
+	name string
+	typ  int
+	dec  func([]byte) (gpb.Message, error)
+	zero func() gpb.Message
+}
+
+func c14wrap[T gpb.Message](f func([]byte) (T, error)) func([]byte) (gpb.Message, error) {
+	return func(b []byte) (gpb.Message, error) { m, err := f(b); return m, err }
+}
+
+// the message types of the wire protocol (documentation/envelope_protocol.md) and their decoders
+var c14decoders = []c14dec{
+	{"Publish", 0, c14wrap(proto.UnmarshalPublish), func() gpb.Message { return &client.Message{} }},
+	{"Ack", 1, c14wrap(proto.UnmarshalAck), func() gpb.Message { return &client.Ack{} }},
+	{"ReplicationRequest", 2, c14wrap(proto.UnmarshalReplicationRequest), func() gpb.Message { return &proto.ReplicationRequest{} }},
+	{"RaftJoinRequest", 4, c14wrap(proto.UnmarshalRaftJoinRequest), func() gpb.Message { return &proto.RaftJoinRequest{} }},
+	{"RaftJoinResponse", 5, c14wrap(proto.UnmarshalRaftJoinResponse), func() gpb.Message { return &proto.RaftJoinResponse{} }},
+	{"LeaderEpochOffsetRequest", 6, c14wrap(proto.UnmarshalLeaderEpochOffsetRequest), func() gpb.Message { return &proto.LeaderEpochOffsetRequest{} }},
+	{"LeaderEpochOffsetResponse", 7, c14wrap(proto.UnmarshalLeaderEpochOffsetResponse), func() gpb.Message { return &proto.LeaderEpochOffsetResponse{} }},
+	{"PropagatedRequest", 8, c14wrap(proto.UnmarshalPropagatedRequest), func() gpb.Message { return &proto.PropagatedRequest{} }},
+	{"PropagatedResponse", 9, c14wrap(proto.UnmarshalPropagatedResponse), func() gpb.Message { return &proto.PropagatedResponse{} }},
+	{"ServerInfoRequest", 10, c14wrap(proto.UnmarshalServerInfoRequest), func() gpb.Message { return &proto.ServerInfoRequest{} }},
+	{"ServerInfoResponse", 11, c14wrap(proto.UnmarshalServerInfoResponse), func() gpb.Message { return &proto.ServerInfoResponse{} }},
+	{"PartitionStatusRequest", 12, c14wrap(proto.UnmarshalPartitionStatusRequest), func() gpb.Message { return &proto.PartitionStatusRequest{} }},
+	{"PartitionStatusResponse", 13, c14wrap(proto.UnmarshalPartitionStatusResponse), func() gpb.Message { return &proto.PartitionStatusResponse{} }},
+	{"PartitionNotification", 14, c14wrap(proto.UnmarshalPartitionNotification), func() gpb.Message { return &proto.PartitionNotification{} }},
+}
+
+// c14decodeAll hands a frame, with its type byte as it is and set to every value 0..16, to every decoder of
+// the protocol package: none may panic, a frame whose header is invalid or names another type is an error for
+// every decoder, and a frame with a valid header is decoded into exactly the protobuf value of its payload.
+func (h *h3) c14decodeAll(frame []byte, what string) (n int) {
+	variants := [][]byte{frame}
+	if len(frame) >= 8 {
+		for t := 0; t <= 16; t++ {
+			v := append([]byte{}, frame...)
+			v[7] = byte(t)
+			variants = append(variants, v)
+		}
+	}
+	for _, f := range variants {
+		payload, typ, valid, undecided := c14header(f)
+		for _, d := range c14decoders {
+			var got gpb.Message
+			var err error
+			var pv any
+			func() {
+				defer func() { pv = recover() }()
+				got, err = d.dec(f)
+			}()
+			n++
+			h.oc.Checks++
+			switch {
+			case pv != nil:
+				h.fail("C14/crash", "C14/crash:decode:"+d.name, "Unmarshal%s panicked on the %s frame %x: %v", d.name, what, trunc(f, 48), pv)
+				return
+			case undecided:
+			case !valid || typ != d.typ:
+				if err == nil {
+					h.fail("C14/decode", "C14/decode/accepted:"+d.name, "Unmarshal%s accepted the %s frame %x (header valid=%v, type byte %d)", d.name, what, trunc(f, 48), valid, typ)
+					return
+				}
+			default:
+				want := d.zero()
+				werr := gpb.Unmarshal(payload, want)
+				if (werr == nil) != (err == nil) || (err == nil && !gpb.Equal(want, got)) {
+					h.fail("C14/decode", "C14/decode/wrong-value:"+d.name, "Unmarshal%s of the %s frame %x: got %v err=%v, the payload decodes to %v err=%v", d.name, what, trunc(f, 48), got, err, want, werr)
+					return
+				}
+			}
+		}
+		// the replication response has its own layout: epoch(8) hw(8) data
+		var pv any
+		var ep uint64
+		var hw int64
+		var data []byte
+		var err error
+		func() {
+			defer func() { pv = recover() }()
+			ep, hw, data, err = proto.UnmarshalReplicationResponse(f)
+		}()
+		n++
+		h.oc.Checks++
+		switch {
+		case pv != nil:
+			h.fail("C14/crash", "C14/crash:decode:ReplicationResponse", "UnmarshalReplicationResponse panicked on the %s frame %x: %v", what, trunc(f, 48), pv)
+			return
+		case undecided:
+		case !valid || typ != 3 || len(payload) < 16:
+			if err == nil {
+				h.fail("C14/decode", "C14/decode/accepted:ReplicationResponse", "UnmarshalReplicationResponse accepted the %s frame %x", what, trunc(f, 48))
+				return
+			}
+		default:
+			if err != nil || ep != binary.BigEndian.Uint64(payload[:8]) || hw != int64(binary.BigEndian.Uint64(payload[8:16])) || !bytes.Equal(data, payload[16:]) {
+				h.fail("C14/decode", "C14/decode/wrong-value:ReplicationResponse", "UnmarshalReplicationResponse of the %s frame %x: epoch=%d hw=%d data=%x err=%v", what, trunc(f, 48), ep, hw, trunc(data, 16), err)
+				return
+			}
+		}
+	}
+	return
+}
+
+// c14typedFrame is a well-formed envelope of a pseudo-randomly chosen internal type, mutated like the publish frames.
+func c14typedFrame(r *simrt.Rand) []byte {
+	var b []byte
+	switch r.Intn(8) {
+	case 0:
+		b, _ = proto.MarshalAck(&client.Ack{Stream: "s", Offset: int64(r.Intn(100)), AckInbox: "i"})
+	case 1:
+		b, _ = proto.MarshalReplicationRequest(&proto.ReplicationRequest{ReplicaID: "b", Offset: int64(r.Intn(100)), LeaderEpoch: uint64(r.Intn(5))})
+	case 2:
+		var buf bytes.Buffer
+		proto.WriteReplicationResponseHeader(&buf)
+		tail := make([]byte, r.Intn(40))
+		for i := range tail {
+			tail[i] = byte(r.Intn(256))
+		}
+		buf.Write(tail)
+		b = buf.Bytes()
+	case 3:
+		b, _ = proto.MarshalPropagatedRequest(&proto.PropagatedRequest{Op: proto.Op(r.Intn(17)), DeleteStreamOp: &proto.DeleteStreamOp{Stream: "s"}})
+	case 4:
+		b, _ = proto.MarshalLeaderEpochOffsetResponse(&proto.LeaderEpochOffsetResponse{EndOffset: int64(r.Intn(100)) - 1})
+	case 5:
+		b, _ = proto.MarshalPartitionStatusResponse(&proto.PartitionStatusResponse{Exists: true, IsLeader: r.Pct(50)})
+	case 6:
+		b, _ = proto.MarshalRaftJoinRequest(&proto.RaftJoinRequest{NodeID: "x", NodeAddr: "y"})
+	default:
+		b, _ = proto.MarshalServerInfoResponse(&proto.ServerInfoResponse{Id: "q", Host: "h", Port: int32(r.Intn(70000))})
+	}
+	switch r.Intn(6) {
+	case 0:
+		if len(b) > 0 {
+			b[r.Intn(len(b))] ^= byte(1 << r.Intn(8))
+		}
+	case 1:
+		b = b[:r.Intn(len(b)+1)]
+	case 2:
+		if len(b) > 5 {
+			b[5] = byte(r.Intn(256))
+		}
+	case 3:
+		if len(b) >= 8 {
+			body := append([]byte{}, b[8:]...)
+			b = append(append(append([]byte{}, b[:8]...), 0, 0, 0, 0), body...)
+			b[5], b[6] = 12, b[6]|1
+			if r.Pct(60) {
+				binary.BigEndian.PutUint32(b[8:], crc32.Checksum(b[12:], c14crc))
+			}
+		}
+	}
+	return b
+}
+
 func execC14(t *testing.T, prog *hx.Program, dec *simrt.Decider, verbose bool) *hx.Outcome {
-	frames, onStream, asEnvelope, verbatim, undecided, typed := 0, 0, 0, 0, 0, 0
+	frames, onStream, asEnvelope, verbatim, undecided, typed, decoded := 0, 0, 0, 0, 0, 0, 0
 	kinds := map[string]int{}
 	oc := runH3(t, prog, dec, verbose, 1, func(h *h3) {
 		n := h.single()
@@ -288,18 +467,36 @@ func execC14(t *testing.T, prog *hx.Program, dec *simrt.Decider, verbose bool) *
 				add(proto.MarshalServerInfoRequest(&proto.ServerInfoRequest{Id: "zz"}))
 				add(proto.MarshalPartitionStatusRequest(&proto.PartitionStatusRequest{Stream: st, Partition: pt}))
 				add(proto.MarshalPartitionNotification(&proto.PartitionNotification{Stream: st, Partition: pt}))
-				add(proto.MarshalReplicationRequest(&proto.ReplicationRequest{ReplicaID: []string{"a", "zz", ""}[r.Intn(3)], Offset: []int64{-5, -1, 0, 1000}[r.Intn(4)], LeaderEpoch: uint64(r.Intn(3))}))
+				// (the leader's own id is a replica of the partition, but nobody replicates to oneself)
+				add(proto.MarshalReplicationRequest(&proto.ReplicationRequest{ReplicaID: []string{"a", "zz", "", n.id}[r.Intn(4)], Offset: []int64{-5, -1, 0, 1000}[r.Intn(4)], LeaderEpoch: uint64(r.Intn(3))}))
+				add(proto.MarshalRaftJoinRequest(&proto.RaftJoinRequest{NodeID: []string{n.id, "", "zz"}[r.Intn(3)], NodeAddr: []string{"", "zz", n.id}[r.Intn(3)]}))
 				add(proto.MarshalLeaderEpochOffsetRequest(&proto.LeaderEpochOffsetRequest{LeaderEpoch: []uint64{0, 1, 99, 1 << 63}[r.Intn(4)]}))
 				preq := &proto.PropagatedRequest{Op: proto.Op(r.Intn(17))}
-				if r.Pct(50) { // a body naming something that does not exist
-					preq.ShrinkISROp = &proto.ShrinkISROp{Stream: "nope", Partition: pt, ReplicaToRemove: "zz"}
-					preq.ExpandISROp = &proto.ExpandISROp{Stream: "nope", Partition: pt, ReplicaToAdd: "zz"}
-					preq.ReportLeaderOp = &proto.ReportLeaderOp{Stream: "nope", Partition: pt, Replica: "zz", Leader: "zz"}
+				if r.Pct(60) { // a body naming something that does not exist, or the stream with parts of it that do not
+					pst := streams[r.Intn(3)]
+					rep := []string{"zz", n.id, ""}[r.Intn(3)]
+					preq.ShrinkISROp = &proto.ShrinkISROp{Stream: pst, Partition: pt, ReplicaToRemove: rep, Leader: []string{"zz", n.id}[r.Intn(2)], LeaderEpoch: uint64(r.Intn(3))}
+					preq.ExpandISROp = &proto.ExpandISROp{Stream: pst, Partition: pt, ReplicaToAdd: rep, Leader: []string{"zz", n.id}[r.Intn(2)], LeaderEpoch: uint64(r.Intn(3))}
+					preq.ReportLeaderOp = &proto.ReportLeaderOp{Stream: pst, Partition: pt, Replica: rep, Leader: []string{"zz", n.id}[r.Intn(2)], LeaderEpoch: uint64(r.Intn(3))}
 					preq.DeleteStreamOp = &proto.DeleteStreamOp{Stream: "nope"}
-					preq.PauseStreamOp = &proto.PauseStreamOp{Stream: "nope", Partitions: []int32{pt}}
-					preq.ResumeStreamOp = &proto.ResumeStreamOp{Stream: "nope", Partitions: []int32{pt}}
+					preq.PauseStreamOp = &proto.PauseStreamOp{Stream: "nope", Partitions: []int32{pt, -1}, ResumeAll: r.Pct(50)}
+					preq.ResumeStreamOp = &proto.ResumeStreamOp{Stream: pst, Partitions: []int32{pt, 3}}
 					preq.SetStreamReadonlyOp = &proto.SetStreamReadonlyOp{Stream: "nope", Partitions: []int32{pt}}
-					preq.CreateStreamOp = &proto.CreateStreamOp{}
+					switch r.Intn(6) {
+					case 0:
+						preq.CreateStreamOp = &proto.CreateStreamOp{}
+					case 1:
+						preq.CreateStreamOp = &proto.CreateStreamOp{Stream: &proto.Stream{Name: "", Subject: ""}}
+					case 2:
+						preq.CreateStreamOp = &proto.CreateStreamOp{Stream: &proto.Stream{Name: "s", Subject: "s", Partitions: []*proto.Partition{{}}}}
+					case 3:
+						preq.CreateStreamOp = &proto.CreateStreamOp{Stream: &proto.Stream{Name: "s", Subject: "s", Partitions: []*proto.Partition{{Stream: "s", Subject: "s", Id: 0, ReplicationFactor: int32(r.Intn(3)) - 1}}}}
+					case 4:
+						// not consistent in itself: partitions that name another stream, the same partition twice
+						preq.CreateStreamOp = &proto.CreateStreamOp{Stream: &proto.Stream{Name: "s", Subject: "t", Partitions: []*proto.Partition{{Stream: "other", Subject: "t", Id: 7, ReplicationFactor: 1}, {Stream: "s", Subject: "t", Id: 7, ReplicationFactor: 1}}}}
+					default:
+						preq.CreateStreamOp = &proto.CreateStreamOp{Stream: &proto.Stream{Name: "t", Subject: "t", Partitions: []*proto.Partition{{Stream: "t", Subject: "t", Id: 7, ReplicationFactor: 1}, {Stream: "t", Subject: "t", Id: 7, ReplicationFactor: 1}}}}
+					}
 					preq.JoinConsumerGroupOp = &proto.JoinConsumerGroupOp{}
 					preq.LeaveConsumerGroupOp = &proto.LeaveConsumerGroupOp{}
 					preq.ReportConsumerGroupCoordinatorOp = &proto.ReportConsumerGroupCoordinatorOp{}
@@ -325,6 +522,13 @@ func execC14(t *testing.T, prog *hx.Program, dec *simrt.Decider, verbose bool) *
 				frame, _ = proto.MarshalAck(&client.Ack{Stream: "s", Offset: int64(op.Arg(1, 0))})
 			}
 			kinds[what]++
+			decoded += h.c14decodeAll(frame, what)
+			if !h.stop {
+				decoded += h.c14decodeAll(c14typedFrame(r), "typed-mutated")
+			}
+			if h.stop {
+				break
+			}
 			// target: mostly the stream subject, otherwise any subject the server listens on
 			subjects := h.bus.Subjects(n.node)
 			target := "s"
@@ -380,6 +584,7 @@ func execC14(t *testing.T, prog *hx.Program, dec *simrt.Decider, verbose bool) *
 	oc.Counters["fault.foreign_frames"] = frames
 	oc.Counters["probe.frames_on_stream_subject"] = onStream
 	oc.Counters["fault.typed_internal_messages"] = typed
+	oc.Counters["probe.decoder_calls_judged"] = decoded
 	oc.Counters["probe.stored_as_envelope"] = asEnvelope
 	oc.Counters["probe.stored_verbatim"] = verbatim
 	oc.Counters["probe.undecided_short_header"] = undecided
